@@ -153,7 +153,8 @@ package mapping
 //@   ensures [unsettable] !ret(CanSet) ==> result == errValueNotSettable && calls(setSameKindValue) == 0
 //@   ensures [out-of-range-not-stored] ret(CanSet) && ret(validateValueRange) != nil ==> result == ret(validateValueRange) && calls(setSameKindValue) == 0 && calls(Set) == 0
 //@   ensures [never-stored-without-the-range-check] calls(setSameKindValue) >= 1 ==> calls(validateValueRange, mapValue, opts) == 1 && ret(validateValueRange) == nil && before(validateValueRange, setSameKindValue)
-//@   ensures [in-range-stored-once] ret(CanSet) && ret(validateValueRange) == nil ==> result == nil && calls(setSameKindValue) == 1 && arg(setSameKindValue, 2) == mapValue && before(validateValueRange, setSameKindValue)
+//@   ensures [in-range-stored-once] ret(CanSet) && ret(validateValueRange) == nil ==> result == ret(setSameKindValue) && calls(setSameKindValue) == 1 && arg(setSameKindValue, 2) == mapValue && before(validateValueRange, setSameKindValue)
+//@   ensures [unconvertible-leaves-the-field-alone] calls(setSameKindValue) == 1 && ret(setSameKindValue) != nil ==> calls(Set) == 0
 
 // ---------------- string sources: conversion, then range=, then the overflow-checked store (C05) ----------------
 // convertType: integers are parsed as full 64-bit decimal numbers (a parse failure - including out of int64/uint64
@@ -564,3 +565,10 @@ package mapping
 //@   prop C05
 //@   ensures [non-pointer-as-is] tkind(t.tag, t.val) != 22 ==> result == t
 //@   ensures [pointer-gives-pointee] tkind(t.tag, t.val) == 22 ==> result.tag == telemtag(t.tag, t.val) && result.val == telemval(t.tag, t.val)
+// setSameKindValue: a value of the field's kind is stored as it is when assignable, converted only when its type
+// is convertible to the field's type (reflect.Value.Convert panics otherwise), and is a mismatch in every other case.
+//@ func setSameKindValue
+//@   prop C05
+//@   replay mapping_samekind
+//@   ensures [assignable-stored-as-is] ret(AssignableTo) ==> calls(Set) == 1 && calls(Convert) == 0
+//@   ensures [converted-only-when-convertible] calls(Convert) >= 1 ==> calls(ConvertibleTo) == 1 && ret(ConvertibleTo) && arg(ConvertibleTo, 0) == targetType && arg(Convert, 1) == targetType
